@@ -1,5 +1,6 @@
 """C12 - HTML, JSON, Markdown and text outputs all render and carry the same data."""
 from engine.ob import REPO_SRC  # noqa: E402
+from engine.ob import pick as _pick, flag as _flag  # noqa: F401
 from engine.ob import Obligation, post, reset_tally_caches
 
 LEVEL = 'other'
@@ -92,6 +93,7 @@ def renders(layout, with_views, what):
         """
         from tally import analyzer, report, cli
         reset_tally_caches()
+        verbose = _pick(verbose, 3)
         amounts = [a1, a2, a3, a4][:n]
         stats = _stats(layout, amounts, with_views)
         captured = []
@@ -113,7 +115,7 @@ def renders(layout, with_views, what):
         _PathRec.written = []
         try:
             if what == 'markdown':
-                analyzer.export_markdown(stats, verbose=int(verbose))
+                analyzer.export_markdown(stats, verbose=verbose)
                 return post(True)
             if what == 'text':
                 if with_views:
@@ -126,7 +128,7 @@ def renders(layout, with_views, what):
                 real = _json.dumps
                 _json.dumps = lambda obj, **kw: (captured.append(obj) or '{}')
                 try:
-                    analyzer.export_json(stats, verbose=int(verbose))
+                    analyzer.export_json(stats, verbose=verbose)
                 finally:
                     _json.dumps = real
                 out = captured[-1]
@@ -232,7 +234,7 @@ def unique_ids3():
         import ast as _ast
         n1 = _ast.literal_eval(repr(n1))
         base = n1.replace("'", '').replace('"', '')
-        extra = [base + ' 2', base + '_2', base.replace(' ', '_') + '_2', base + "'"][int(variant)]
+        extra = [base + ' 2', base + '_2', base.replace(' ', '_') + '_2', base + "'"][_pick(variant, 4)]
         names = []
         for n in (n1, base, extra, base + '_3'):
             if n and n.strip() and n not in names:
